@@ -45,6 +45,43 @@ _built = set()
 SCHED = os.path.join(VERIF, "sim-sched")
 
 
+def repo_path():
+    """The tokio-rs/bytes tree the simulators are built from (the path in sim/seq/Cargo.toml)."""
+    m = re.search(r'bytes\s*=\s*\{\s*path\s*=\s*"([^"]+)"', open(os.path.join(SIM, "seq", "Cargo.toml")).read())
+    return m.group(1) if m else "/repo"
+
+
+_bypass = None
+
+
+def seam_bypass():
+    """Atomics of core/std used by the crate *outside* its `loom` seam are invisible to E-sched: the
+    scheduler cannot interleave them and the happens-before ledger misses the edges they make,
+    so its race verdicts would be unsound. Returns the list of such places (normally empty)."""
+    global _bypass
+    if _bypass is not None:
+        return _bypass
+    hits = []
+    src = os.path.join(repo_path(), "src")
+    for root, _, files in os.walk(src):
+        for fn in files:
+            if not fn.endswith(".rs") or fn in ("loom.rs", "verif_sync.rs"):
+                continue
+            for n, line in enumerate(open(os.path.join(root, fn), errors="replace"), 1):
+                code = line.split("//")[0]
+                if re.search(r"\b(core|std)::sync::atomic\b", code):
+                    hits.append("%s:%d" % (os.path.relpath(os.path.join(root, fn), src), n))
+    _bypass = hits
+    if hits:
+        log("NOTE: the crate uses core/std atomics outside its loom seam (%s); the happens-before ledger of E-sched is "
+            "switched off for this run (values, addresses and ownership are still checked under every schedule; data races are left to the Miri tier)" % ", ".join(hits[:5]))
+    return hits
+
+
+def sched_extra():
+    return ["--hb", "0"] if seam_bypass() else []
+
+
 def build_sched(variant="vrelease"):
     key = ("sched", variant)
     if key in _built:
@@ -261,10 +298,13 @@ def run_batch(engine, variant, seed, tag, profile, runs, steps, extra_args=(), l
                 break  # one hang per chunk is enough; do not resume the rest of the range
             if hdr is None:
                 raise HarnessError("worker %s/%s died (%s) without a journal: %s" % (engine, variant, _sig_name(rc), err))
-            if rc == -signal.SIGABRT and re.search(r"memory allocation of \d+ bytes failed", err or ""):
+            if rc == -signal.SIGABRT and re.search(r"memory allocation of \d+ bytes failed", err or "") and ops and ops[-1].get("band"):
                 # the process ended because an allocation request was refused (SimAlloc refuses
-                # requests above its cap): that is the platform's out-of-memory behaviour, not a
-                # property violation. The run is skipped and counted.
+                # requests above its cap) during an operation whose request is representable but
+                # larger than any memory (generated as such, "band"): that is the platform's
+                # out-of-memory behaviour, not a property violation. The run is skipped and counted.
+                # Everywhere else a huge argument is out of contract and must be refused *before*
+                # anything is allocated for it, so the abort stays a crash record.
                 alloc_aborts[0] += 1
                 a = hdr.get("run", a) + 1
                 guard -= 1 if alloc_aborts[0] < 200 else 0
@@ -274,7 +314,7 @@ def run_batch(engine, variant, seed, tag, profile, runs, steps, extra_args=(), l
             rec = {"type": "violation", "engine": engine, "profile": profile, "variant": variant,
                    "run": run_idx, "seed": hdr.get("seed"), "cfg": hdr.get("cfg", {}), "ops": ops,
                    "drop_order": order or [],
-                   "violations": [{"props": (["C05", "C02"] if engine == "sched" else crash_props(ops)), "kind": "worker-crash:" + _sig_name(rc),
+                   "violations": [{"props": (["C05", "C02"] if engine == "sched" else list(dict.fromkeys((HANG_PROPS.get((engine, profile), []) if engine == "buf" else []) + crash_props(ops)))), "kind": "worker-crash:" + _sig_name(rc),
                                    "detail": "worker process died with %s while executing the last journalled operation; stderr: %s" % (_sig_name(rc), err.strip()[-300:]),
                                    "step": max(0, len(ops) - 1)}]}
             for k in ("prog", "plan", "regen"):
